@@ -16,7 +16,7 @@ Record XGood (ct : ctable) (st : state) : Prop := mkXGood {
 
 Definition xguard (ct : ctable) (st : state) (o : xop) : Prop :=
   match o with
-  | XBase b => op_guard b /\ cplx_guard st b
+  | XBase b => cplx_guard st b
   | XSplit dst src =>
       match get_root st src with
       | Some i => match hget (heap st) i with
@@ -30,10 +30,10 @@ Definition xguard (ct : ctable) (st : state) (o : xop) : Prop :=
       end
   end.
 
-Theorem xgood_step ct st o : consts_nonzero ct -> XGood ct st -> xguard ct st o -> XGood ct (fst (xstep ct st o)).
+Theorem xgood_step ct st o : XGood ct st -> xguard ct st o -> XGood ct (fst (xstep ct st o)).
 Proof.
-  intros HC [G R] Gd. destruct o as [b|dst src]; cbn [xstep].
-  - destruct Gd as [G1 G2]. pose proof (good_step ct st b HC G1 G) as G'. pose proof (rok_step ct st b (g_inv _ _ G) R G2) as R'.
+  intros [G R] Gd. destruct o as [b|dst src]; cbn [xstep].
+  - pose proof Gd as G2. pose proof (good_step ct st b G) as G'. pose proof (rok_step ct st b (g_inv _ _ G) R G2) as R'.
     destruct (step ct st b) as [s r]. cbn [fst] in *. constructor; assumption.
   - cbn [xguard] in Gd. destruct (get_root st src) as [i|] eqn:Er; [|unfold split_op; rewrite Er; constructor; assumption].
     destruct (hget (heap st) i) as [ob|] eqn:Eo; [|unfold split_op; rewrite Er, Eo; constructor; assumption].
@@ -49,9 +49,9 @@ Fixpoint xguarded (ct : ctable) (st : state) (ops : list xop) : Prop :=
   | o :: r => xguard ct st o /\ xguarded ct (fst (xstep ct st o)) r
   end.
 
-Theorem xgood_run ct st ops : consts_nonzero ct -> XGood ct st -> xguarded ct st ops -> XGood ct (xrun ct st ops).
+Theorem xgood_run ct st ops : XGood ct st -> xguarded ct st ops -> XGood ct (xrun ct st ops).
 Proof.
-  intros HC. revert st. induction ops as [|o r IH]; intros st G Gd; cbn; [exact G|]. destruct Gd as [G1 G2].
+  revert st. induction ops as [|o r IH]; intros st G Gd; cbn; [exact G|]. destruct Gd as [G1 G2].
   apply IH; [apply xgood_step; assumption | exact G2].
 Qed.
 
